@@ -96,8 +96,10 @@ pub fn run(job: &Value, t: &mut Trace) -> usize {
                 for (i, f) in frames.iter().enumerate() {
                     // before every frame but the first, calls that must be refused without a trace in the stream
                     if i > 0 {
-                        let bad: [(u32, u8, u32, usize); 4] = [(1_234_567, f.channels, f.bps, 16), (f.rate, 0, f.bps, 16), (f.rate, 9, f.bps, 16), (f.rate, f.channels, 17, 16)];
-                        let (r, c, b, n) = bad[(i + f.samples.len()) % 4];
+                        let bad: [(u32, u8, u32, usize); 8] = [(1_234_567, f.channels, f.bps, 16), (f.rate, 0, f.bps, 16), (f.rate, 9, f.bps, 16), (f.rate, f.channels, 17, 16),
+                            // more PCM frames than a block can hold (the 16-bit block size must not wrap)
+                            (f.rate, 1, f.bps, 65536), (f.rate, 1, f.bps, 65537), (f.rate, 2, f.bps, 70000), (f.rate, 1, f.bps, 131073)];
+                        let (r, c, b, n) = bad[(i + f.samples.len() + a["id"].as_u64().unwrap_or(0) as usize) % 8];
                         let junk = vec![0i32; n * c.max(1) as usize];
                         if w.write(r, c, b, &junk).is_err() {
                             refused += 1;
